@@ -167,8 +167,12 @@ def mutate(rng, toks):
     return toks
 
 
+HUGE_SHIFT = re.compile(r"(?i)(lsl|lsr|asr|ror|[su]xt[bhwx]|msl)[\s#]*[0-9]{3,}")
+
+
 def run_malformed(ctx, p, base, n, cfg):
     cases = []
+    skipped = 0
     while len(cases) < n:
         c = ctx.rng.choice(base)
         toks = mutate(ctx.rng, c["toks"])
@@ -177,6 +181,11 @@ def run_malformed(ctx, p, base, n, cfg):
         lay, trail = G.gen_layout(ctx.rng, toks)
         line = G.render(toks, lay, trail)
         if line.strip() == "":
+            continue
+        if HUGE_SHIFT.search(line):
+            # a shift/extend amount of three and more digits (a token swapped into that place): the parser computes 2**amount, which
+            # does not come back for an 18-digit amount -- outside the sub-language (amounts are 0..63) and not worth a hang
+            skipped += 1
             continue
         cases.append((line, L.real_parse(p, line)))
     shards = [("c10_mal_%03d" % k, L.line_shard(cases[i:i + 400], cfg)) for k, i in enumerate(range(0, len(cases), 400))]
@@ -192,7 +201,7 @@ def run_malformed(ctx, p, base, n, cfg):
         rej += int(r)
         par += int(q)
     ctx.count(len(cases))
-    ctx.coverage["malformed_stream"] = {"lines": len(cases), "model_unmodelled": unm, "model_reject": rej, "model_parsed": par,
+    ctx.coverage["malformed_stream"] = {"lines": len(cases), "skipped_huge_shift_amount": skipped, "model_unmodelled": unm, "model_reject": rej, "model_parsed": par,
                                         "implementation_rejects": sum(1 for _, r in cases if r.startswith("REJECT"))}
     ctx.obligation("malformed-stream shards evaluate", "correspondence", not broken_out, "\n".join(broken_out[:2]))
     detail = "" if not bad else "%d lines, first: %r -> implementation %s" % (len(bad), bad[0][0], bad[0][1])
